@@ -24,7 +24,7 @@ AI = 'concepts/algorithms/__init__.py'
 CM = 'concepts/_common.py'
 TL = 'concepts/tools.py'
 _BSP = 'ABS:/venv/lib/python3.12/site-packages/bitsets/'
-BI, BB, BM, BS = _BSP + 'integers.py', _BSP + 'bases.py', _BSP + 'meta.py', _BSP + 'series.py'
+BI, BB, BM, BS, BC = _BSP + 'integers.py', _BSP + 'bases.py', _BSP + 'meta.py', _BSP + 'series.py', _BSP + 'combos.py'
 DF = 'concepts/definitions.py'
 
 MUTANTS = [
@@ -130,6 +130,14 @@ MUTANTS = [
     (BB, "        return cls.fromint(sum(compress(cls._atoms, bools)))", "        return cls.fromint(sum(cls._atoms))", ['bitsets.MemberBits.frombools'], 'breaks'),
     (BB, "        return bin(self).count('1'), self._reinverted(self._len)", "        return bin(self).count('1'), self._int", ['bitsets.MemberBits.shortlex'], 'breaks'),
     (BB, "        return -bin(self).count('1'), self._reinverted(self._len)", "        return bin(self).count('1'), self._reinverted(self._len)", ['bitsets.MemberBits.longlex'], 'breaks'),
+    (BC, "            first, other = other[0], other[1:]", "            first, other = other[0], other[2:]", ['bitsets.combos.shortlex'], 'breaks'),
+    (BC, "            result = current | first\n\n            yield result\n\n            if other:\n                queue.append((result, other))\n\n\ndef reverse",
+         "            result = current & first\n\n            yield result\n\n            if other:\n                queue.append((result, other))\n\n\ndef reverse", ['bitsets.combos.shortlex'], 'breaks'),
+    (BC, "        current, other = queue.popleft()\n\n        while other:\n            first, other = other[0], other[1:]\n            result = current | first",
+         "        current, other = queue.pop()\n\n        while other:\n            first, other = other[0], other[1:]\n            result = current | first", ['bitsets.combos.shortlex'], 'breaks'),
+    (BC, "    if not excludestart:\n        yield start", "    if excludestart:\n        yield start", ['bitsets.combos.shortlex'], 'breaks'),
+    (BC, "            if other:\n                queue.append((result, other))\n\n\ndef reverse", "            if other:\n                queue.append((current, other))\n\n\ndef reverse", ['bitsets.combos.shortlex'], 'breaks'),
+    (BB, "        return map(self.frombitset, combos.shortlex(start, list(other)))", "        return map(self.frombitset, combos.shortlex(self, list(other)))", ['bitsets.MemberBits.powerset'], 'breaks'),
     # completeness / exactly-once of FCbO (units fcbo.*.complete)
     (FC, 'stack.append((concept, j + 1, next_property_sets))', 'stack.append((concept, j + 2, next_property_sets))', ['fcbo.fast_generate_from.complete'], 'breaks'),
     (FC, '                if j_lower & intent == j_lower:', '                if True:', ['fcbo.fast_generate_from.complete'], 'breaks'),
